@@ -138,6 +138,11 @@ public:
   double get_mod_mean (unsigned i) const { return i ? mb : ma; }
   double get_mod_variance (unsigned i) const { return i ? vb : va; }
 };
+// a modulation factor with K discrete values v_k of probabilities p_k; the oracle selects the current value
+struct point_mod : public epsic::modulated_mode { std::vector<double> v, p; unsigned current = 0; unsigned long calls = 0; double mu = 0, var = 0;
+  point_mod (epsic::mode* s, const std::vector<double>& v_, const std::vector<double>& p_) : modulated_mode (s), v(v_), p(p_)
+  { long double m = 0, q = 0; for (size_t k=0;k<v.size();k++) { m += p[k]*v[k]; q += p[k]*v[k]*v[k]; } mu = m; var = q - m*m; }
+  double modulation () { calls++; return v[current]; } double get_mod_mean () const { return mu; } double get_mod_variance () const { return var; } };
 struct Moments { long double mean[4] = {0,0,0,0}; long double sec[4][4] = {{0}}; bool finite = true; };
 // product cubature over `ndev` normal deviates: nodes 0,+-1,+-2 with weights 1/2,1/6,1/12 (exact for degree <= 5 in each deviate)
 template<class F> static void cubature (unsigned ndev, long double weight, Moments& M, F sample)
@@ -190,6 +195,26 @@ int main ()
     for (int i=0;i<4;i++) for (int j=0;j<4;j++) e4 = std::max (e4, std::max (fabsl (x0[i][j]-ec[i][j]), std::max (fabsl ((long double)x1[i][j]), fabsl ((long double)x9[i][j]))) / (scale*scale));
     O.puti (finite ? 1 : 0); O.put ((double) e1); O.put ((double) e2); O.put ((double) e3); O.put ((double) e4); };
 
+  // oracle: in ANY polarization basis (process-wide setting) the ensemble coherency matrix <e e^dagger> of the generated fields is the
+  // coherency matrix convert(S) of the requested Stokes parameters, and coherency(<e e^dagger>) gives them back
+  OP("o.c01.basis") { std::string b = A.next(); if (b == "cir") Pauli::basis().set_basis (Signal::Circular); else if (b == "ell") { double o = A.d(); double e = A.d(); Pauli::basis().set_basis (o, e); }
+    else if (b != "lin") throw std::runtime_error ("protocol:basis");
+    Stokes<double> S = A.stokes(); epsic::mode m; m.set_Stokes (S); m.set_normal (&g_bm);
+    static const float node[5] = { 0, 1, -1, 2, -2 }; static const long double wt[5] = { 0.5L, 1.0L/6, 1.0L/6, 1.0L/12, 1.0L/12 };
+    std::complex<long double> r00 = 0, r01 = 0, r10 = 0, r11 = 0; bool finite = true;
+    for (int a=0;a<5;a++) for (int bb=0;bb<5;bb++) for (int c=0;c<5;c++) for (int d=0;d<5;d++) {
+      g_normal.push_back (node[a]); g_normal.push_back (node[bb]); g_normal.push_back (node[c]); g_normal.push_back (node[d]);
+      Spinor<double> e = m.get_field(); long double w = wt[a]*wt[bb]*wt[c]*wt[d];
+      std::complex<long double> x (e.x.real(), e.x.imag()), y (e.y.real(), e.y.imag()); finite = finite && std::isfinite (e.x.real()) && std::isfinite (e.y.imag());
+      r00 += w * x * std::conj (x); r01 += w * x * std::conj (y); r10 += w * y * std::conj (x); r11 += w * y * std::conj (y); }
+    Jones<double> want = convert (S); long double scale = std::max ((long double) std::fabs (S[0]), 1e-300L);
+    long double e1 = std::max (std::max (std::abs (r00 - std::complex<long double>(want.j00)), std::abs (r01 - std::complex<long double>(want.j01))),
+                               std::max (std::abs (r10 - std::complex<long double>(want.j10)), std::abs (r11 - std::complex<long double>(want.j11)))) / scale;
+    Jones<double> rho (std::complex<double>((double) r00.real(), (double) r00.imag()), std::complex<double>((double) r01.real(), (double) r01.imag()),
+                       std::complex<double>((double) r10.real(), (double) r10.imag()), std::complex<double>((double) r11.real(), (double) r11.imag()));
+    Stokes<double> back = coherency (rho); long double e2 = 0; for (int i=0;i<4;i++) e2 = std::max (e2, fabsl ((long double) back[i] - S[i]) / scale);
+    O.puti (finite ? 1 : 0); O.put ((double) e1); O.put ((double) e2); };
+
   // ------------------------------------------------------------ C06: sample means
   OP("sm.cov") { unsigned n = A.n(); stub_mode s; s.cv = A.d(); unsigned k = A.n(); for (unsigned i=0;i<k;i++) s.x.push_back (A.d());
     epsic::single smp (new epsic::mode); O.put (smp.sample::get_covariance (&s, n)); };
@@ -220,6 +245,15 @@ int main ()
     O.puti (finite ? 1 : 0); O.puti (cs->fields == n ? 1 : 0); O.put ((double) e1); O.put ((double) e2); O.put ((double) e3); O.put ((double) e4); };
 
 
+  // oracle: post-detection boxcar sample over a constant-field stub: every generated sample equals the stub's Stokes
+  // parameters (a running mean of identical instances), the first sample primes smooth-1 instances and every sample draws n
+  OP("o.c06.boxcarsample") { unsigned smooth = A.n(); unsigned n = A.n(); unsigned k = A.n(); stub_mode* s = new stub_mode; s->cv = 1;
+    epsic::boxcar_sample smp (s, smooth); smp.sample_size = n; long bad_value = 0, bad_count = 0;
+    for (unsigned t=1; t<=k; t++) { Stokes<double> st = smp.get_Stokes();
+      if (!(std::fabs (st[0] - 1.0) < 1e-14 && std::fabs (st[1] - 1.0) < 1e-14 && st[2] == 0 && st[3] == 0)) bad_value++;
+      if (s->fields != (unsigned long)(smooth - 1) + (unsigned long) n * t) bad_count++; }
+    Vector<4,double> mean = smp.get_mean(); O.put ((double) bad_value); O.put ((double) bad_count); };
+
   // ------------------------------------------------------------ C07: amplitude modulation
   // a sequence of modulation factors from scripted deviates
   OP("mod.seq") { Stokes<double> S (1,0,0,0); epsic::modulated_mode* mod = 0; make_mode (A, S, &g_bm, &mod); unsigned m = A.n();
@@ -235,6 +269,14 @@ int main ()
     Spinor<double> t = sm.transform (e); O.put (t);
     Vector<4,double> s0, s1; compute_stokes (s0, e); compute_stokes (s1, t); double worst = 0;
     for (int i=0;i<4;i++) worst = std::max (worst, std::fabs (s1[i] - m*s0[i]) / std::max (std::fabs (m*s0[0]), 1e-300)); O.put (worst); };
+  // oracle: a mode modulated by a discrete factor of ANY mean: exact ensemble mean and covariance of the generated Stokes
+  // parameters (cubature over the 4 field deviates x enumeration of the factor) against get_mean / get_covariance
+  OP("o.c07.modcov") { Stokes<double> S = A.stokes(); unsigned K = A.n(); std::vector<double> v, p; for (unsigned k=0;k<K;k++) { v.push_back (A.d()); p.push_back (A.d()); }
+    epsic::mode* base = new epsic::mode; base->set_Stokes (S); base->set_normal (&g_bm); point_mod* pm = new point_mod (base, v, p);
+    epsic::single smp (pm); smp.sample_size = 1; Moments M;
+    for (unsigned k=0;k<K;k++) { pm->current = k; cubature (4, p[k], M, [&]() { return smp.get_Stokes(); }); }
+    double vmax = 0; for (double x : v) vmax = std::max (vmax, std::fabs (x));
+    report (O, M, smp.get_mean(), smp.get_covariance(), S[0] * std::max (vmax, 1.0)); };
   // oracle (linear filter): exact moments of the boxcar-smoothed factors for iid draws with the declared mean/variance,
   // from the impulse response of the real filter, against what the model reports.  Output: max |error| of mean, variance, lag terms
   OP("o.c07.boxcar") { unsigned w = A.n(); double mu = A.d(); double var = A.d(); unsigned steps = 3*w + 5; unsigned draws = w - 1 + steps;
@@ -277,12 +319,14 @@ int main ()
       -0.27348104613815245, -0.82295144914465589, -1.3802585391988808, -1.9517879909162540, -2.5462021578474814, -3.1769991619799560, -3.8694479048601227, -4.6887389393058184 };
     static const double gw[8] = { 5.0792947901661374e-1, 2.8064745852853368e-1, 8.3810041398985829e-2, 1.2880311535509974e-2, 9.3228400862418053e-4, 2.7118600925378815e-5, 2.3209808448652107e-7, 2.6548074740111822e-10 };
     // nodes x_i, weights w_i for integral exp(-x^2) f(x); standard normal: g = sqrt(2) x, weight w/sqrt(pi)
-    long double m1 = 0, m2 = 0;
+    long double m1 = 0, wsum = 0; long double vals[16], wts[16];
     for (int i=0;i<16;i++) { float g = (float)(sqrt(2.0)*gx[i]); g_normal.push_back (g); double v = ln.modulation();
       // compensate the rounding of the node to float: evaluate the weight at the float node through the density ratio
       long double wgt = gw[i%8] / sqrtl (M_PIl) * expl (gx[i]*gx[i] - 0.5L*(long double)g*g) ;
-      m1 += wgt*v; m2 += wgt*(long double)v*v; }
-    long double var = m2 - m1*m1; long double rv = ln.get_mod_variance();
+      vals[i] = v; wts[i] = wgt; m1 += wgt*v; wsum += wgt; }
+    // centred second moment (no cancellation for small modulation indices)
+    long double var = 0; for (int i=0;i<16;i++) var += wts[i] * (vals[i] - m1) * (vals[i] - m1);
+    long double rv = ln.get_mod_variance();
     O.put ((double) fabsl (m1 - ln.get_mod_mean())); O.put ((double) (fabsl (var - rv) / std::max (rv, 1e-300L))); O.put (std::fabs (sqrt (ln.get_mod_variance()) - beta) / beta); };
 
 
@@ -298,6 +342,24 @@ int main ()
     O.put (co->get_correlation()); O.put (co->get_intensity_covariance());
     for (char c : pat) O.put (c == 'A' ? A_->modulation() : B_->modulation());
     O.puti (g_normal_calls); };
+  // oracle (history): changing the modulation indices after factors have been drawn must give the same factors, from the same
+  // deviates, as a coordinator configured with the new indices from the start (and the same rejection, if the correlation
+  // is no longer admissible).  Output: number of differing factors (or 1 when only one of the two rejects)
+  OP("o.c08.rebuild") { double rho = A.d(); double b0 = A.d(); double b1 = A.d(); double n0 = A.d(); double n1 = A.d(); std::vector<float> dev; while (!A.done()) dev.push_back ((float) A.d());
+    auto draw = [&](bool history, std::vector<double>& out) -> int { g_normal.clear();
+      epsic::bivariate_lognormal_modes* co = new epsic::bivariate_lognormal_modes (rho); co->set_normal (&g_bm);
+      epsic::mode* ma = new epsic::mode; epsic::mode* mb = new epsic::mode; epsic::modulated_mode* A_ = co->get_modulated_mode (0, ma); epsic::modulated_mode* B_ = co->get_modulated_mode (1, mb);
+      try {
+        if (history) { co->set_beta (0, b0); co->set_beta (1, b1); g_normal.push_back (0.25f); g_normal.push_back (-0.5f); A_->modulation(); B_->modulation(); }
+        co->set_beta (0, n0); co->set_beta (1, n1);
+        for (float d : dev) g_normal.push_back (d);
+        for (size_t i=0; i+1<dev.size(); i+=2) { out.push_back (A_->modulation()); out.push_back (B_->modulation()); }
+        out.push_back (A_->get_mod_variance()); out.push_back (B_->get_mod_variance()); out.push_back (co->get_intensity_covariance()); }
+      catch (Exhausted&) { throw; } catch (std::exception&) { return 1; }
+      return 0; };
+    std::vector<double> x, y; int rx = draw (true, x), ry = draw (false, y); long bad = 0;
+    if (rx != ry) bad = 1; else if (!rx) { for (size_t i=0;i<x.size();i++) if (memcmp (&x[i], &y[i], 8) != 0) bad++; }
+    O.put ((double) bad); O.puti (rx); O.puti (ry); };
   // oracle: pairing under an arbitrary interleaving, with a counting coordinator (draw k delivers (k, k + 1/2))
   OP("o.c08.pairing") { std::string pat = A.next();
     struct counting : public epsic::covariant_coordinator { unsigned long k = 0; counting () : covariant_coordinator (0.0) {}
@@ -399,10 +461,6 @@ int main ()
   // predicted covariance (meaningful at zero coherence)
   OP("o.c05.coherent") { double coh = A.d(); Stokes<double> SA = A.stokes(); Stokes<double> SB = A.stokes(); unsigned N = A.n();
     // optional independent discrete modulation of each mode: K values v_k with probabilities p_k (unit mean)
-    struct point_mod : public epsic::modulated_mode { std::vector<double> v, p; unsigned current = 0; unsigned long calls = 0; double mu = 0, var = 0;
-      point_mod (epsic::mode* s, const std::vector<double>& v_, const std::vector<double>& p_) : modulated_mode (s), v(v_), p(p_)
-      { long double m = 0, q = 0; for (size_t k=0;k<v.size();k++) { m += p[k]*v[k]; q += p[k]*v[k]*v[k]; } mu = m; var = q - m*m; }
-      double modulation () { calls++; return v[current]; } double get_mod_mean () const { return mu; } double get_mod_variance () const { return var; } };
     auto read_mod = [&](epsic::mode* base) -> point_mod* { if (A.done()) return 0; unsigned K = A.n(); if (!K) return 0; std::vector<double> v, p; for (unsigned k=0;k<K;k++) { v.push_back (A.d()); p.push_back (A.d()); } return new point_mod (base, v, p); };
     epsic::coherent* c = new epsic::coherent (coh); c->A->set_Stokes (SA); c->B->set_Stokes (SB); c->set_normal (&g_bm);
     point_mod* pa = read_mod (c->A); if (pa) c->A = pa; point_mod* pb = read_mod (c->B); if (pb) c->B = pb;
